@@ -424,7 +424,7 @@ class Raised(Exception):
 
 _IMPLICIT_EXC = {"max-empty": "ValueError", "index-absent": "ValueError", "brentq-bracket": "ValueError", "unpack": "ValueError",
                  "zip-star-empty": "ValueError", "index": "IndexError", "index-store": "IndexError", "key": "KeyError",
-                 "div": "ZeroDivisionError", "none-attr": "AttributeError", "len-none": "TypeError"}
+                 "div": "ZeroDivisionError", "none-attr": "AttributeError", "len-none": "TypeError", "assert": "AssertionError"}
 MULF = z3.Function("MUL", z3.RealSort(), z3.RealSort(), z3.RealSort())
 PI = z3.Real("PI")
 PI_AXIOMS = [PI > z3.RealVal("3.14159265358"), PI < z3.RealVal("3.14159265359")]
@@ -746,6 +746,12 @@ class Exec:
 
     def stmt_Continue(self, stmt, st, mod):
         return [("continue", st, None)]
+
+    def stmt_Assert(self, stmt, st, mod):
+        # `assert c`: an implicit-exception site (AssertionError unless c holds); interpreter option -O is not modelled
+        c = self.truth(self.eval(stmt.test, st, mod), st, stmt)
+        self.safety(st, "assert", c if not isinstance(c, bool) else c, stmt)
+        return [("next", st, None)]
 
     def stmt_Raise(self, stmt, st, mod):
         exc = stmt.exc
